@@ -955,6 +955,13 @@ def summarize(table: Table, **kwargs: ColExpr) -> Pipeable:
     if len(kwargs) == 0 and len(partition_by) == 0:
         raise ValueError("summarize without preceding group_by needs at least one column to summarize")
 
+    # the grouping columns become columns of the result: they need a name
+    if hidden := [uid for uid in table._cache.partition_by if uid not in table._cache.uuid_to_name]:
+        raise ValueError(
+            f"cannot summarize a table grouped by the hidden column `{table._cache.cols[hidden[0]].ast_repr()}`\n"
+            "hint: select the grouping column or change the grouping before `summarize`."
+        )
+
     def check_summarize_col_expr(expr: ColExpr, agg_fn_above: bool):
         if isinstance(expr, Col) and expr._uuid not in partition_by and not agg_fn_above:
             raise FunctionTypeError(
